@@ -238,14 +238,11 @@ def check_resolve(chk, tu):
                     facts['empty-rejected'] = True
                     if op_ in ('<=', '=='):
                         facts['empty'] = True
-        if p.ret != 1:
-            # failing paths must not have written anything
-            w = [a for n, a, l in p.events if n in ('write', 'store-sym-index')]
-            chk.expect(not w, 'R14.2', 'no-write-on-failure[%s]' % cond[:60], 'resolvePath writes %r although it fails' % (w,), site)
-            continue
-        n_ok += 1
-        chk.expect(facts['empty-rejected'], 'R14.2', 'empty-path-rejected[%s]' % cond[:60],
-                   'a successful path of resolvePath has not tested pathLength > 0', site + ':empty')
+        if p.ret == 1:
+            n_ok += 1
+            chk.expect(facts['empty-rejected'], 'R14.2', 'empty-path-rejected[%s]' % cond[:60],
+                       'a successful path of resolvePath has not tested pathLength > 0', site + ':empty')
+        # what is written must stay inside result[PATH_MAX] on every path, also on one that rejects the path afterwards
         writes = []
         stores = []
         for n, a, l in p.events:
@@ -290,11 +287,34 @@ def check_resolve(chk, tu):
                        'a long directory/guest path overflows the buffer' % (_show(end), PM, '; '.join('%s < %d' % (_show(g), K) for g, K in guards)),
                        site + ':bound', loc)
     chk.require(n_ok >= 3, 'resolvePath has %d successful paths' % n_ok)
+    # an absolute guest path is used as is: whether it is accepted depends on its own length only, never on the directory
+    for p in paths:
+        isabs = False
+        seen_first = False
+        for c, t, _ in p.decisions:
+            if _mentions(c, first):
+                r_ = pe.relation(c, t)
+                if r_ is not None and 47 in (r_[1], r_[2]) and r_[0] in ('==', '!=') and not seen_first:
+                    isabs = r_[0] == '=='
+                    seen_first = True
+        if not isabs:
+            continue
+        dep = [c for c, t, _ in p.decisions if any(x == L or (x.op == 'unk' and x.args[0] in ('directory', 'dirlast')) for x in pe.sym_walk(c))]
+        chk.expect(not dep, 'R14.2', 'absolute-independent-of-directory[%s]' % p.cond_text()[:50],
+                   'for an absolute guest path resolvePath %s after testing %r: acceptance of an absolute path must not depend on the path '
+                   'of the directory descriptor (a path that fits the host limit is rejected when the directory path is long)'
+                   % ('succeeds' if p.ret == 1 else 'fails', dep[0] if dep else None), site + ':absolute')
     # separator inserted iff the directory does not end with '/'; absolute paths copied unchanged
     for p in paths:
         if p.ret != 1:
             continue
-        absd = [t for c, t, _ in p.decisions if _mentions(c, first)]
+        # is this the path on which the guest path starts with '/'?  (decided from the relation, however the test is spelled)
+        absd = []
+        for c, t, _ in p.decisions:
+            if _mentions(c, first):
+                r_ = pe.relation(c, t)
+                if r_ is not None and 47 in (r_[1], r_[2]) and r_[0] in ('==', '!='):
+                    absd.append(r_[0] == '==')
         if absd and absd[0]:
             srcs = [a[3] for n, a, l in p.events if n == 'write']
             chk.expect(len(srcs) == 1 and not any(is_sym(s) and s.op == 'unk' and s.args[0] == 'directory' for s in srcs), 'R14.2',
